@@ -81,10 +81,10 @@ Lemma tls13_outer (P : Prim CS) r hty hver body : mode_ok P R MTls13 c ->
   (hty = 20 -> unprotect c P r (hty, hver, body) =
                if zlen body >? c_recv_limit c then RErr EOverflow else ROk (r, (20, body))) /\
   (* the plaintext-alert window: only while no record has been received under this key *)
-  (hty = 21 -> zlen body < 3 -> zlen body <= c_recv_limit c -> st_seq r = 0 ->
+  (hty = 21 -> c_plain_alert c = true -> zlen body < 3 -> zlen body <= c_recv_limit c -> st_seq r = 0 ->
    unprotect c P r (hty, hver, body) = ROk (r, (21, body))) /\
   (* any other outer type than application_data is rejected before open() *)
-  (hty <> 20 -> hty <> 23 -> ~ (hty = 21 /\ zlen body < 3 /\ st_seq r = 0) ->
+  (hty <> 20 -> hty <> 23 -> ~ (c_plain_alert c = true /\ hty = 21 /\ zlen body < 3 /\ st_seq r = 0) ->
    0 <= st_seq r < 18446744073709551616 -> c_tag c <= zlen body ->
    unprotect c P r (hty, hver, body) = RErr EUnexpected) /\
   (* application_data with a record version other than 3.3 is rejected before open() *)
@@ -108,21 +108,22 @@ Proof.
   split; [|split; [|split]].
   - intros ->. unfold unprotect. rewrite Hpre, Ht13. change (20 =? 20) with true. cbn [andb rbind].
     change (20 =? 23) with false. rewrite ?andb_false_r. cbn [andb rbind]. reflexivity.
-  - intros -> Hlt Hle Hs0. unfold unprotect. rewrite Hpre, Ht13, Henc, Hs0. change (21 =? 20) with false.
+  - intros -> Hpa Hlt Hle Hs0. unfold unprotect. rewrite Hpre, Ht13, Henc, Hs0, Hpa. change (21 =? 20) with false.
     change (21 =? 21) with true. change (0 =? 0) with true. cbn [andb]. destruct (zlen body <? 3) eqn:E; [|lia]. cbn [andb rbind].
     change (21 =? 23) with false. rewrite ?andb_false_r. cbn [andb rbind].
     destruct (zlen body >? c_recv_limit c) eqn:E2; [lia|]. reflexivity.
   - intros H20 H23 Hal Hseq Htl. unfold unprotect. rewrite Hpre, Ht13, Henc, Haead.
     destruct (hty =? 20) eqn:E20; [apply Z.eqb_eq in E20; contradiction|]. cbn [andb].
-    assert (Hbyp : ((hty =? 21) && (zlen body <? 3) && true && (st_seq r =? 0)) = false).
-    { destruct (hty =? 21) eqn:E21; [|reflexivity]. destruct (zlen body <? 3) eqn:E3; [|reflexivity].
+    assert (Hbyp : (c_plain_alert c && (hty =? 21) && (zlen body <? 3) && true && (st_seq r =? 0)) = false).
+    { destruct (c_plain_alert c) eqn:Epa; [|reflexivity].
+      destruct (hty =? 21) eqn:E21; [|reflexivity]. destruct (zlen body <? 3) eqn:E3; [|reflexivity].
       destruct (st_seq r =? 0) eqn:E0; [|reflexivity]. exfalso. apply Hal.
-      apply Z.eqb_eq in E21. apply Z.eqb_eq in E0. lia. }
+      apply Z.eqb_eq in E21. apply Z.eqb_eq in E0. repeat split; auto; lia. }
     rewrite Hbyp. unfold decrypt_and_unseal. rewrite next_seq_ok by lia. cbn [rbind]. rewrite Hexp, Hgn. cbn [rbind].
     destruct (c_tag c >? zlen body) eqn:Et; [lia|]. rewrite Ht13.
     destruct (hty =? 23) eqn:E23; [apply Z.eqb_eq in E23; contradiction|]. reflexivity.
   - intros -> Hhv Hseq Htl. unfold unprotect. rewrite Hpre, Ht13, Henc, Haead.
-    change (23 =? 20) with false. change (23 =? 21) with false. cbn [andb].
+    change (23 =? 20) with false. change (23 =? 21) with false. cbn [andb]. rewrite ?andb_false_r. cbn [andb].
     unfold decrypt_and_unseal. rewrite next_seq_ok by lia. cbn [rbind]. rewrite Hexp, Hgn. cbn [rbind].
     destruct (c_tag c >? zlen body) eqn:Et; [lia|]. rewrite Ht13. change (23 =? 23) with true. cbn [negb].
     destruct (pairZ_eqb hver (3, 3)) eqn:E; [apply pairZ_eqb_spec in E; contradiction|]. reflexivity.
@@ -140,11 +141,13 @@ Proof.
   unfold unprotect in H. destruct (zlen body >? c_recv_limit c + 2048); [discriminate|].
   destruct (c_tls13 c && (zlen body >? c_recv_limit c + 256)); [discriminate|].
   rewrite Ht13, Henc, Haead in H. change (23 =? 20) with false in H. change (23 =? 21) with false in H.
-  change (23 =? 23) with true in H. cbn [andb] in H.
+  change (23 =? 23) with true in H. cbn [andb] in H. rewrite ?andb_false_r in H. cbn [andb] in H.
   apply rbind_ok_inv in H. destruct H as [[s1 d1] [Hd H]].
   apply rbind_ok_inv in H. destruct H as [[ty1 d2] [Hdp H]].
   destruct (zlen d1 >? c_recv_limit c + 1); [discriminate|].
   destruct (zlen d2 >? c_recv_limit c); [discriminate|]. injection H as <- <- <-.
+  apply rbind_ok_inv in Hdp. destruct Hdp as [[t0 d0] [Hdp Hccs]].
+  destruct (t0 =? 20); [discriminate|]. injection Hccs as -> ->.
   exists d1. auto.
 Qed.
 
